@@ -73,6 +73,9 @@ def cases(draw):
     nsd = draw(st.sampled_from(NS_DICTS))
     if nsd is not None:
         cfg["namespaces_dict"] = nsd
+    if draw(st.integers(0, 4)) == 0:
+        # a restriction option must restrict every channel alike (the in-memory Graph and the parsed files go through the same filter)
+        cfg["namespaces_to_ignore"] = draw(st.lists(st.sampled_from(["http://ex.org/", "http://ex.org/ns/", "http://other.org/v#"]), min_size=1, max_size=2, unique=True))
     case = {"g": g, "cfg": cfg, "target": {"mode": "all"}, "thr": draw(st.sampled_from([0, 0, 0.5, 1 / 3, 1])), "channels": chans}
     if draw(st.integers(0, 5)) == 0:
         dd = draw(common.dups(g, type_only=True))
